@@ -1191,7 +1191,7 @@ func runC07(r *lib.Run) {
 	defer pool.Close()
 	rng := r.Rng("c07")
 
-	nHist := r.N(60, 900)
+	nHist := r.N(60, 500)
 	nScn := r.N(6, 60)
 	if child {
 		nHist, nScn = r.N(8, 50), r.N(1, 6)
@@ -1209,7 +1209,7 @@ func runC07(r *lib.Run) {
 	r.CountN("gate.timeouts", hc.GateTimeouts.Load())
 	if !child {
 		t2 := time.Now()
-		runRaceChild(r, r.N(1, 5))
+		runRaceChild(r, r.N(1, 3))
 		r.CountN("time_ms.race_child", time.Since(t2).Milliseconds())
 	}
 }
